@@ -21,7 +21,7 @@ import (
 	"go.etcd.io/bbolt/verifh/drv"
 )
 
-const c03Rule = "generated concurrent programs: 2-12 goroutines, each a generated list of calls from {Update whose body reads four counters, bumps one and writes a per-transaction log key, ending in commit / returned error / panic; manual Begin(true) + same body + Rollback or Commit; View; Begin(false) + read + Rollback; Batch (MaxBatchSize in {0,1,2,3,1000}, MaxBatchDelay in {0,1,10 ms}); Stats}; optionally one goroutine calls Close at a generated point; GOMAXPROCS in {2,4,16}; hook callbacks yield at every I/O call; built with -race. Oracle (schedule independent): (i) no two write bodies overlap in time; (ii) the committed bodies sorted by tx id carry consecutive ids starting at last-committed+1, each read exactly the state its predecessor produced (serial replay), non-committing bodies leave no trace (final dump = serial replay of the committed ones) ; (iii) every read transaction saw exactly the state of the version its tx id names; (iv) the race detector reports nothing; (v) the program terminates within the deadline; after Close every call returns ErrDatabaseNotOpen. Non-trivial = at least one Begin(true) had to wait for another write body, and a non-committing body ran between two committing ones. Distinct = SHA-256 of the program."
+const c03Rule = "generated concurrent programs: 2-12 goroutines, each a generated list of calls from {Update whose body reads four counters, bumps one and writes a per-transaction log key (or, in 2 of 11 cases, only reads: a committed no-op still consumes its id), ending in commit / returned error / panic; manual Begin(true) + same body + Rollback or Commit; View; Begin(false) + read + Rollback; Batch (MaxBatchSize in {0,1,2,3,1000}, MaxBatchDelay in {0,1,10 ms}); Stats}; optionally one goroutine calls Close at a generated point; GOMAXPROCS in {2,4,16}; hook callbacks yield at every I/O call; built with -race. Oracle (schedule independent): (i) no two write bodies overlap in time; (ii) the committed bodies sorted by tx id carry consecutive ids starting at last-committed+1, each read exactly the state its predecessor produced (serial replay), non-committing bodies leave no trace (final dump = serial replay of the committed ones) ; (iii) every read transaction saw exactly the state of the version its tx id names, and one begun after a commit returned never carries a smaller id than that commit; (iv) the race detector reports nothing; (v) the program terminates within the deadline; after Close every call returns ErrDatabaseNotOpen. Non-trivial = at least one Begin(true) had to wait for another write body, and a non-committing body ran between two committing ones. Distinct = SHA-256 of the program."
 
 type c03Call struct {
 	Kind    string `json:"kind"`    // update manual view beginro batch stats close
@@ -45,6 +45,8 @@ type c03Body struct {
 	counter   int
 	newVal    uint64
 	committed bool
+	noop      bool     // the body only read (Delta 0): committing it still consumes its transaction id
+	tx        *bolt.Tx // identity of the transaction (several Batch functions may share one)
 }
 
 type c03Read struct {
@@ -116,9 +118,16 @@ func c03Run(p c03Prog) (v *drv.Violation, waited bool, mixed bool) {
 			setViol(drv.Violf("two write transaction bodies are running at the same time (tx id %d)", tx.ID()))
 		}
 		defer inBody.Add(-1)
-		bd := &c03Body{seq: seq.Add(1), txid: tx.ID(), counter: c.Counter}
+		bd := &c03Body{seq: seq.Add(1), txid: tx.ID(), counter: c.Counter, tx: tx, noop: c.Delta == 0}
 		bd.reads = readCounters(tx)
 		bd.newVal = bd.reads[c.Counter] + c.Delta
+		if bd.noop {
+			runtime.Gosched()
+			mu.Lock()
+			bodies = append(bodies, bd)
+			mu.Unlock()
+			return bd
+		}
 		var buf [8]byte
 		binary.BigEndian.PutUint64(buf[:], bd.newVal)
 		if err := tx.Bucket([]byte("s")).Put([]byte{byte('a' + c.Counter)}, buf[:]); err != nil {
@@ -134,6 +143,22 @@ func c03Run(p c03Prog) (v *drv.Violation, waited bool, mixed bool) {
 		bodies = append(bodies, bd)
 		mu.Unlock()
 		return bd
+	}
+	// seesCommit: once Commit/Update has returned nil, a transaction begun afterwards must not carry a smaller id
+	seesCommit := func(bd *c03Body) {
+		tx, err := db.Begin(false)
+		if err != nil {
+			return // closed concurrently
+		}
+		id := tx.ID()
+		r := c03Read{txid: id, reads: readCounters(tx)}
+		_ = tx.Rollback()
+		if id < bd.txid {
+			setViol(drv.Violf("a read transaction begun after write transaction %d had committed carries tx id %d", bd.txid, id))
+		}
+		mu.Lock()
+		readsRO = append(readsRO, r)
+		mu.Unlock()
 	}
 	okAfterClose := func(err error, what string) {
 		if err == nil {
@@ -181,6 +206,9 @@ func c03Run(p c03Prog) (v *drv.Violation, waited bool, mixed bool) {
 						mu.Lock()
 						bd.committed = true
 						mu.Unlock()
+						if c.Counter == 0 {
+							seesCommit(bd)
+						}
 					}
 					if err == nil && c.Outcome != "commit" {
 						setViol(drv.Violf("Update returned nil although its function %s", c.Outcome))
@@ -204,6 +232,9 @@ func c03Run(p c03Prog) (v *drv.Violation, waited bool, mixed bool) {
 							mu.Lock()
 							bd.committed = true
 							mu.Unlock()
+							if c.Counter == 0 {
+								seesCommit(bd)
+							}
 						}
 					} else if err := tx.Rollback(); err != nil {
 						setViol(drv.Violf("Rollback: %v", err))
@@ -293,6 +324,9 @@ func c03Run(p c03Prog) (v *drv.Violation, waited bool, mixed bool) {
 	for i, b := range committed {
 		if i > 0 && committed[i-1].txid == b.txid {
 			// several Batch functions in one transaction
+			if committed[i-1].tx != b.tx {
+				return drv.Violf("two different committed write transactions carry the same id %d", b.txid), false, false
+			}
 		} else {
 			if b.txid != next {
 				return drv.Violf("committed write transactions do not carry consecutive ids: expected %d, got %d (first id %d)", next, b.txid, firstID), false, false
@@ -354,7 +388,9 @@ func c03Run(p c03Prog) (v *drv.Violation, waited bool, mixed bool) {
 	}
 	distinctTx := map[int]bool{}
 	for _, b := range committed {
-		distinctTx[b.txid] = true
+		if !b.noop {
+			distinctTx[b.txid] = true
+		}
 	}
 	if logN != len(distinctTx) {
 		return drv.Violf("the log bucket holds %d entries, %d write transactions committed (an uncommitted transaction left a trace, or a committed one was lost)", logN, len(distinctTx)), false, false
@@ -384,7 +420,7 @@ func TestC03(t *testing.T) {
 					c.Outcome = rapid.SampledFrom([]string{"commit", "rollback"}).Draw(rt, "outcome")
 				}
 				c.Counter = rapid.IntRange(0, 3).Draw(rt, "counter")
-				c.Delta = uint64(rapid.IntRange(1, 9).Draw(rt, "delta"))
+				c.Delta = uint64(rapid.SampledFrom([]int{0, 0, 1, 2, 3, 4, 5, 6, 7, 8, 9}).Draw(rt, "delta")) // 0: the body only reads
 				calls = append(calls, c)
 			}
 			if withClose && r == 0 {
